@@ -8,6 +8,7 @@ hold, under n, a value equal (type-aware) to json.loads(j), and nothing else.
 """
 
 import json
+import random
 import math
 
 from vk.boot import HarnessBroken
@@ -23,7 +24,7 @@ RULE = ('values: seeded random JSON documents (nesting to depth 6, empty contain
 ASSUMPTIONS = ['json.loads of the standard library is the reference model; only spellings valid in both JSON and ES5 are '
                'generated (no U+2028/U+2029 raw in strings)']
 BUDGET_S = {'quick': 60, 'thorough': 600}
-REQUIRED_HITS = ['ast_to_dict', 'LiteralEval', 'GroupAsMap', 'GroupAsList']
+REQUIRED_HITS = ['ast_to_dict', 'LiteralEval', 'GroupAsMap', 'GroupAsList', 'wide_value']
 FLOOR = {'quick': 5000, 'thorough': 60000}
 
 
@@ -226,6 +227,21 @@ def check(ctx, jtext, form, fold):
         ctx.violation(v[0], {'json': jtext, 'form': form, 'fold_ops': fold}, '%s\nsource: %r' % (v[1], src[:300]))
 
 
+def wide_values(rng):
+    def num():
+        return rng.choice(['-%d', '%d', '-%d.5', '-0.%d', '%de1', '-%dE-2']) % rng.randint(0, 999)
+    out = []
+    for n in (300, 700, 1500):
+        out.append('[%s]' % ','.join(num() for i in range(n)))
+        out.append('[%s]' % ','.join('[-%d.5,-%d]' % (i, i) for i in range(n // 2)))
+        out.append('{%s}' % ','.join('"k%d":%s' % (i, num()) for i in range(n)))
+        out.append('[%s]' % ','.join('{"a":-%d,"b":[true,null,"s%d"]}' % (i, i) for i in range(n // 3)))
+        out.append('[%s]' % ','.join(rng.choice(['true', 'false', 'null', '"x"', '[]', '{}', '-1']) for i in range(n)))
+    out.append(json.dumps('x' * 6000 + '\n' + 'y' * 3000))
+    out.append('{%s}' % ','.join('"%s":"%s"' % ('k' * (i % 40 + 1) + str(i), 'v' * (i % 90)) for i in range(800)))
+    return out
+
+
 def run(ctx):
     h = Hits(ctx).install()
     rng = ctx.rng
@@ -240,6 +256,14 @@ def run(ctx):
                     check(ctx, j, form, fold)
             if not (i & 0x3f) and ctx.out_of_time():
                 break
+        # wide values: the statement has no bound on the number of members, and bookkeeping that grows with the
+        # number of values converted in one program (stacks, counters) only shows on literals with hundreds of them
+        for k, jtext in enumerate(wide_values(random.Random(ctx.seed * 31 + 5))):
+            if k % ctx.nshards == ctx.shard:
+                ctx.hit('wide_value')
+                for form in FORMS:
+                    for fold in (False, True):
+                        check(ctx, jtext, form, fold)
         # every number spelling and every escape on its own
         for k, num in enumerate(NUMBERS):
             if k % ctx.nshards == ctx.shard:
